@@ -134,6 +134,24 @@ Proof.
   field. split; intro E; [rewrite E in Hpos|rewrite E in HT]; apply (Qlt_irrefl 0); assumption.
 Qed.
 
+(* the array form depends on the SET of chosen alternatives only: order and repetitions in the choice array do not matter *)
+Lemma aminQ_same_set l l' : l <> [] -> l' <> [] -> incl l l' -> incl l' l -> gen_aminQ l == gen_aminQ l'.
+Proof.
+  intros Hl Hl' H1 H2. apply Qle_antisym.
+  - apply aminQ_le. apply H2. apply aminQ_in. exact Hl'.
+  - apply aminQ_le. apply H1. apply aminQ_in. exact Hl.
+Qed.
+Theorem gen_distortion_arr_depends_on_chosen_set cs cs' V : cs <> [] -> cs' <> [] -> (forall c, In c cs <-> In c cs') ->
+  gen_distortion_arr cs V == gen_distortion_arr cs' V.
+Proof.
+  intros Hne Hne' Hset. unfold gen_distortion_arr. cbv zeta. apply Qdiv_comp; [reflexivity|].
+  apply aminQ_same_set.
+  - destruct cs; [congruence|discriminate].
+  - destruct cs'; [congruence|discriminate].
+  - intros x Hx. apply in_map_iff in Hx. destruct Hx as [c [Hc Hin]]. apply in_map_iff. exists c. split; [exact Hc|apply Hset; exact Hin].
+  - intros x Hx. apply in_map_iff in Hx. destruct Hx as [c [Hc Hin]]. apply in_map_iff. exists c. split; [exact Hc|apply Hset; exact Hin].
+Qed.
+
 (* one chosen alternative passed as an array: the two branches of the helper agree *)
 Theorem gen_distortion_arr_singleton c V : gen_distortion_arr [c] V = gen_distortion_int c V.
 Proof. reflexivity. Qed.
@@ -169,3 +187,5 @@ Print Assumptions aminQ_fold_le.
 Print Assumptions aminQ_le.
 Print Assumptions gen_distortion_arr_is_worst_welfare_ratio.
 Print Assumptions gen_distortion_arr_singleton.
+Print Assumptions aminQ_same_set.
+Print Assumptions gen_distortion_arr_depends_on_chosen_set.
